@@ -694,6 +694,7 @@ def stepLine (a : RunAcc) (n : Nat) (line : String) : IO RunAcc := do
     | some lp => return { a with sim := s.onPort name side lp }
     | none => return { a with sim := s }
   | "op" :: rest => return { a with sim := s.onOp n rest, creditLines := [] }
+  | "opd" :: rest => return { a with sim := s.onOp n rest, creditLines := [] }
   | ["tx", side, hx] => return { a with sim := s.onWire n true side hx }
   | ["rx", side, hx] => return { a with sim := s.onWire n false side hx }
   | "ret" :: k :: res => return { a with sim := s.onRet n k res }
